@@ -252,6 +252,9 @@ class GlobalLock:
     def __bool__(self):
         return False
 
+    def locked(self):
+        return GlobalLock.shared.locked()
+
     async def __aenter__(self):
         await GlobalLock.shared.__aenter__()
         return self
